@@ -14,6 +14,8 @@ tools/rs2lean_fn.py — regenerates Lean definitions from the SOURCE TEXT of sel
   fn:triang   /repo/yui-matrix/src/sparse/triang.rs                -> lean/Yuiv/Gen/TriangFn.lean   (Props/C12Gen.lean)
   fn:spmat    /repo/yui-matrix/src/sparse/sp_mat.rs                -> lean/Yuiv/Gen/SpMatFn.lean    (Props/C13Gen.lean)
   fn:trans    /repo/yui-matrix/src/sparse/trans.rs                 -> lean/Yuiv/Gen/TransFn.lean    (Props/C13GenT.lean)
+  fn:spvec    /repo/yui-matrix/src/sparse/sp_vec.rs                -> lean/Yuiv/Gen/SpVecFn.lean    (Props/C13GenV.lean)
+  fn:schur    /repo/yui-matrix/src/sparse/schur.rs                 -> lean/Yuiv/Gen/SchurFn.lean    (Props/C08Gen.lean)
 
 Additions for fn:misc / fn:snf (see the target entries in TARGETS and Yuiv/Model/RustIter.lean, RustDense.lean):
 free functions of a file (`free_fns`), closures as auxiliary definitions (captured variables become parameters),
@@ -83,7 +85,7 @@ Semantics emitted
     on fuel (`Res.err` when it runs out): the constant `loopFuel`, or — target option `fuel_param` — an explicit first
     argument `fuel` of every function that (transitively) contains a loop.
 
-Usage: rs2lean_fn.py [fn:bitseq|fn:ratio|fn:intext|fn:qint|fn:ff|fn:misc|fn:snf|fn:lll|fn:homcalc|fn:triang|fn:spmat|fn:trans]... [--src FILE]... [--out FILE]   (none = all)
+Usage: rs2lean_fn.py [fn:bitseq|fn:ratio|fn:intext|fn:qint|fn:ff|fn:misc|fn:snf|fn:lll|fn:homcalc|fn:triang|fn:spmat|fn:trans|fn:spvec|fn:schur]... [--src FILE]... [--out FILE]   (none = all)
   `--src` (once per source file of the target, in its order) and `--out` need exactly one target.
 Exit status 0: every selected generated file is up to date or was rewritten; 1: for some target something in a
 REQUIRED function (or in the item structure) is outside the subset — `rs2lean_fn: cannot translate: <what>` is printed
@@ -298,6 +300,44 @@ TARGETS = {
                "`Yuiv/Props/C13GenT.lean` proves them equal to the hand-written model `C13.Trans.*` (`Yuiv/Model/C13.lean`)."],
         required=_req("Trans", ("id", "zero", "new", "src_dim", "tgt_dim", "is_id", "forward", "backward", "append",
                                 "append_perm", "merge", "merged", "forward_mat", "backward_mat", "reduce", "sub"))),
+    "spvec": dict(
+        src="/repo/yui-matrix/src/sparse/sp_vec.rs", out="SpVecFn.lean", ns="Yuiv.GenSpVec", scalar="K13",
+        macros=False, fuel_param=True, nat_usize=True, sp13=True, no_derive=True, soft_params=True,
+        scalar_sig="{R : Type} [Zero R] [One R] [Add R] [Mul R] [Neg R] [DecidableEq R]",
+        wrapper_structs={"SpVec": ("inner", "PV", "PM", "Sp.vec_inner", "Sp.vec_of_inner")},
+        forlist_fn="Sp.forList", enumerate_fn="Sp.enumerate",
+        imports=["Yuiv.Model.Res", "Yuiv.Model.RustArith", "Yuiv.Model.RustRing", "Yuiv.Model.RustIter",
+                 "Yuiv.Model.RustDense", "Yuiv.Model.RustSp"],
+        blurb=["The functions of `impl SpVec<R>` (yui-matrix/src/sparse/sp_vec.rs) and `SpMat::into_spvec`.",
+               "`SpVec<R>` is the model's `C13.SpVec R` (dimension + stored entries); the `CscMatrix<R>` it wraps is the",
+               "`dim × 1` matrix `Sp.vec_inner v` (`SpVec.toMat`), and the struct literal `SpVec { inner }` is `Sp.vec_of_inner`",
+               "(first column of `inner`; `SpVec::new` asserts that there is exactly one).  Everything else as in fn:spmat:",
+               "`SpMat<R>` / `CscMatrix<R>` are `C13.SpMat R`, `PermView` is `C13.Perm`, `Range<usize>` a pair, `Vec<T>` a list,",
+               "`usize` an unbounded `Nat` with checked subtraction, `F: Fn(..) -> T` a `Res`-valued function; the functions of",
+               "other files (`SpMat::from_entries`, `CscMatrix::{zeros, try_from_csc_data, disassemble, triplet_iter}`) are",
+               "those of the hand model through Yuiv/Model/RustSp.lean; panics are `Res.panic`.",
+               "`Yuiv/Props/C13GenV.lean` proves them equal to the hand-written model `C13.SpVec.*` (`Yuiv/Model/C13.lean`)."],
+        required=_req("SpVec", ("new", "zero", "unit", "dim", "iter", "iter_nz", "from_entries", "from_sorted_entries",
+                                "from_raw_data", "stack_vecs", "extract", "permute", "subvec", "stack", "split",
+                                "to_dense")) + [("SpMat", None, "into_spvec")]),
+    "schur": dict(
+        src="/repo/yui-matrix/src/sparse/schur.rs", out="SchurFn.lean", ns="Yuiv.GenSchur", scalar="S",
+        macros=False, fuel_param=True, nat_usize=True, csc=True, cscx=True, no_derive=True,
+        struct_params="(α : Type)", struct_param_name="α",
+        imports=["Yuiv.Model.Res", "Yuiv.Model.RustArith", "Yuiv.Model.RustRing", "Yuiv.Model.RustDense",
+                 "Yuiv.Model.RustCsc"],
+        blurb=["The functions of `impl Schur<R>` (yui-matrix/src/sparse/schur.rs): `from_partial_triangular`, `compute_schur`,",
+               "`complement`, `trans_src`, `trans_tgt`, `disassemble`.  Cargo features are OFF (sequential `compute_schur`).",
+               "`R` is a type `α` with `[C12.Scal α]`; `SpMat<R>` is the model's CSC content `C12.SpMat α`, `SpVec<R>` is `SVec α`,",
+               "`TriangularType` is the Boolean `is_upper`, `Trans<R>` the pair `(forward, backward)` of its two factors",
+               "(`Trans::new` keeps its three shape assertions); `struct Schur<R>` is the generated structure `SchurS α`; local",
+               "closures are inlined; the functions of other files (`divide4`, `solve_triangular`, `solve_triangular_left`,",
+               "`stack`, `extend_cols`, `-m`, `SpMat::id`, `from_entries`, `from_col_vecs`, `col_vec`, `&SpMat * SpVec`,",
+               "`SpVec - SpVec`) are those of the hand model `Yuiv/Model/C12.lean` through Yuiv/Model/RustCsc.lean",
+               "(`solve_triangular*` are tied to triang.rs by fn:triang); panics are `Res.panic`.",
+               "`Yuiv/Props/C08Gen.lean` proves them equal to the hand-written model `C12.schur` / `C12.computeSchur`."],
+        required=_req("Schur", ("from_partial_triangular", "compute_schur", "complement", "trans_src", "trans_tgt",
+                                "disassemble"))),
     "intext": dict(
         src=["/repo/yui/src/misc/int_ext.rs", "/repo/yui/src/abst/euc_ring.rs"], out="IntExtFn.lean",
         ns="Yuiv.GenIntExt", scalar="Z", macros=True, fuel_param=True,
@@ -733,6 +773,18 @@ class Parser:
             if t.kind == "id" and t.val in ("struct", "enum", "impl", "const", "static", "type", "mod",
                                             "trait", "macro_rules"):
                 raise Unsupported(f"item `{t.val}` inside a function body (line {t.line})")
+            if t.kind == "id" and t.val == "cfg_if" and self.at("::", 1) and self.at("cfg_if", 2) and self.at("!", 3) \
+                    and self.at("{", 4):
+                self.next(); self.next(); self.next(); self.next()
+                s_, e_ = self.skip_balanced()
+                blk = self.cfg_if(s_, e_, t.line)
+                if self.eat(";") or not self.at("}"):
+                    stmts += list(blk.stmts)                 # the `let`s of the selected branch stay in scope
+                    if blk.tail is not None: stmts.append(N("expr", e=blk.tail, line=t.line))
+                    uses += list(getattr(blk, "uses", [])); fns += list(getattr(blk, "fns", []))
+                else:
+                    tail = blk
+                continue
             blocklike = (t.kind == "id" and t.val in BLOCKLIKE) or self.at("{") or t.kind == "life"
             e = self.expr(stmt=True)
             if self.eat(";"):
@@ -1052,6 +1104,7 @@ class Parser:
     def closure(self):
         t = self.next()
         params = []
+        mutps = set()
         if t.val == "|":
             def tpat():
                 self.expect("("); comps = []
@@ -1067,12 +1120,13 @@ class Parser:
                     params.append(tpat())
                 else:
                     self.eat("&")
+                    if self.eat("mut"): mutps.add(self.peek().val)
                     params.append("_" if self.eat("_") else self.ident())
                 if self.eat(":"): self.ty()
                 if not self.eat(","): break
             self.expect("|")
         if self.at("->"): raise Unsupported(f"closure with return type (line {t.line})")
-        return N("closure", params=params, body=self.expr(), line=t.line)
+        return N("closure", params=params, body=self.expr(), line=t.line, mutps=mutps)
 
     def pattern(self):
         t = self.peek()
@@ -1674,7 +1728,8 @@ class Translator:
         self.uses_opaque = []
         self.for_ctx = None
         self.nty = 0
-        self.newtypes = set(self.cfg.get("newtype_structs", {}))
+        self.newtypes = set(self.cfg.get("newtype_structs", {})) | set(self.cfg.get("wrapper_structs", {}))
+        if self.cfg.get("sp13") and "SpMat" not in mod.structs: self.newtypes.add("SpMat")      # `impl SpMat` in another file
         self.local_closures = {}
         self.cur_rest = None    # (following statements, tail) of the statement being translated
         TYBIND.clear()
@@ -1697,6 +1752,7 @@ class Translator:
                                     ["Res " + self.lean_ty(self.norm_ty(mf.group(2), self.cur))]) + ")"
         if t == "S" and self.scalar == "S": return "α"
         if t == "SM": return "(C12.SpMat α)"
+        if t == "TR": return "(SM.TrPair α)"
         if t == "SV": return "(SVec α)"
         if t == "VS": return "(Array α)"
         if t in ("Z", "W"): return "Int"
@@ -1716,7 +1772,7 @@ class Translator:
         if t == "()": return "Unit"
         if t == "Ordering": return "Ordering"
         if t in self.mod.enums: return t
-        if t in self.mod.structs and self.cfg.get("struct_params"): return f"({t}S R)"
+        if t in self.mod.structs and self.cfg.get("struct_params"): return f"({t}S {self.cfg.get('struct_param_name', 'R')})"
         if t in self.mod.structs: return t + "S"
         m = re.fullmatch(r"Option<(.*)>", t)
         if m: return f"(Option {self.lean_ty(m.group(1))})"
@@ -1740,7 +1796,7 @@ class Translator:
         if self.cfg.get("nat_usize") and t == "usize": return "usize"
         if self.cfg.get("sp13"):
             if t in ("PM", "PV", "PP", "CO", "RG", "K13") or t.startswith("FN<"): return t
-            if t in ("PermView", "sprs::PermView", "PermOwned", "sprs::PermOwned"): return "PP"
+            if re.sub(r"<'\w+>$", "", t) in ("PermView", "sprs::PermView", "PermOwned", "sprs::PermOwned"): return "PP"
             if t == "Range<usize>": return "RG"
             ms = re.fullmatch(r"(SpMat|CscMatrix|SpVec|CooMatrix|Vec)<(.+)>", t) or re.fullmatch(r"\[()([^;]+)\]", t)
             if ms:
@@ -1752,6 +1808,14 @@ class Translator:
                 if kind == "Vec": return f"List<{inner}>"
             if t == "Self" and fn.ty in self.cfg.get("newtype_structs", {}): return "PM"
             if t in self.cfg.get("newtype_structs", {}): return "PM"
+            if t == "Self" and fn.ty in self.cfg.get("wrapper_structs", {}): return self.cfg["wrapper_structs"][fn.ty][1]
+            if t == "Self" and fn.ty == "SpMat" and "SpMat" not in self.mod.structs: return "PM"
+            mi = re.fullmatch(r"impl Iterator<Item=(.+)>", t) if self.cfg.get("wrapper_structs") else None
+            if mi: return "List<" + self.norm_ty(mi.group(1), fn) + ">"
+        if self.cfg.get("cscx"):
+            if t in ("TR",): return t
+            if t in ("TriangularType", "super::triang::TriangularType"): return "bool"
+            if re.fullmatch(r"Trans<(.+)>", t) and self.norm_ty(t[6:-1], fn) == "S": return "TR"
         if self.cfg.get("csc"):
             if t in ("SM", "SV", "VS", "S"): return t
             mc = re.fullmatch(r"(SpMat|SpVec|Vec)<(.+)>", t) or re.fullmatch(r"\[()(.+)\]", t)
@@ -1883,6 +1947,8 @@ class Translator:
             return Translator.compat(a[5:-1], b[5:-1])
         if a.startswith("Option<") and b.startswith("Option<") and a != "Option<_>" and b != "Option<_>":
             return Translator.compat(a[7:-1], b[7:-1])
+        if a.startswith("List<(") and b.startswith("List<(") and "int" in a + b:
+            return Translator.compat(a[5:-1], b[5:-1])
         return False
 
     def join_int(self, a, b, what, line):
@@ -2425,12 +2491,14 @@ class Translator:
                             env2[n] = (self.ident(n), t_, False); bound.add(n); outp.append(self.ident(n))
                     return "(" + ", ".join(outp) + ")"
                 an = f"x{k_}"
-                sig.append(f"({an} : {unpar(self.lean_ty(ty))})")
+                sig.append((an, ty))
                 pre.append(("let", bindp(p_, ty), an))
             else:
                 an = "_" if p_ == "_" else self.ident(p_)
-                sig.append(f"({an if an != '_' else 'x' + str(k_)} : {unpar(self.lean_ty(ty))})")
-                if p_ != "_": env2[p_] = (an, ty, False); bound.add(p_)
+                sig.append((an if an != '_' else 'x' + str(k_), ty))
+                if p_ != "_": env2[p_] = (an, ty, p_ in getattr(c, "mutps", set())); bound.add(p_)
+        if getattr(c, "mutps", None) and not self.cfg.get("sp13"):
+            raise Unsupported(f"closure with a `mut` parameter (line {c.line})")
         used = self.used(c.body, env)
         cap = [n for n in env if n in used and n not in bound]
         self.nloop += 1
@@ -2444,6 +2512,7 @@ class Translator:
         fuel_here = self.uses_fuel
         self.uses_fuel = saved_fuel or fuel_here
         mon = code.monadic()
+        sig = [f"({an_} : {unpar(self.lean_ty(ty_))})" for an_, ty_ in sig]
         csig = " ".join(([self.gsig] if self.gsig else []) + (["(fuel : Nat)"] if fuel_here else []) +
                         [f"({env[n][0]} : {unpar(self.lean_ty(env[n][1]))})" for n in cap] + sig)
         lret = self.lean_ty(cret)
@@ -2544,8 +2613,8 @@ class Translator:
             if self.cfg.get("csc") and st.pat is None and getattr(st, "els", None) is None:
                 r_ = self.tr_lazy_map(st, env)
                 if r_ is not None: return r_
-            if self.cfg.get("sp13") and st.pat is None and getattr(st, "els", None) is None and init.kind == "closure" \
-                    and not st.mut:
+            if (self.cfg.get("sp13") or self.cfg.get("cscx")) and st.pat is None and getattr(st, "els", None) is None \
+                    and init.kind == "closure" and not st.mut:
                 if self.mutated(init.body, env) or self.has_jump(init.body) or any(isinstance(p_, tuple) for p_ in init.params):
                     raise Unsupported(f"local closure of this form (line {st.line})")
                 env[st.name] = ("<closure>", "CLOSURE", False)
@@ -2639,10 +2708,31 @@ class Translator:
             return r.segs[0]
         return None
 
+    def upd_field(self, ln, rty, field, new):
+        """Lean term of the value `ln : rty` with its field (struct field / tuple component) replaced by `new`"""
+        rty = resolve_ty(rty)
+        if rty.startswith("(") and field.isdigit():
+            n_ = len(split_top(rty[1:-1]))
+            return "(" + ", ".join(unpar(new) if k_ == int(field) else self.tuple_proj(ln, k_, n_) for k_ in range(n_)) + ")"
+        return f"{{ {ln} with {field} := {unpar(new)} }}"
+
+    def get_field(self, ln, rty, field):
+        rty = resolve_ty(rty)
+        if rty.startswith("(") and field.isdigit():
+            return self.tuple_proj(ln, int(field), len(split_top(rty[1:-1])))
+        return f"{ln}.{field}"
+
     def vec_field_place(self, recv, env):
-        """`x.f` with x a mutable struct variable and f a field of list type: (root, field, field type) or None"""
+        """`x.f` with x a mutable struct variable and f a field of list type (or `x.0` of a mutable tuple variable):
+        (root, field, field type) or None"""
         r = recv
         while r.kind == "paren": r = r.e
+        if r.kind == "field" and r.e.kind == "path" and len(r.e.segs) == 1 and r.e.segs[0] in env and env[r.e.segs[0]][2] \
+                and r.name.isdigit() and resolve_ty(env[r.e.segs[0]][1]).startswith("("):
+            comps = split_top(resolve_ty(env[r.e.segs[0]][1])[1:-1])
+            if int(r.name) < len(comps) and comps[int(r.name)].startswith("List<"):
+                return r.e.segs[0], r.name, comps[int(r.name)]
+            return None
         if r.kind == "field" and r.e.kind == "path" and len(r.e.segs) == 1 and r.e.segs[0] in env and env[r.e.segs[0]][2] \
                 and env[r.e.segs[0]][1] in self.mod.structs:
             try:
@@ -2676,25 +2766,33 @@ class Translator:
         fp = self.vec_field_place(e.recv, env) if self.cfg.get("sp13") else None
         if fp is not None and e.name in ("push", "append", "clear"):
             root, field, fty = fp
-            ln = env[root][0]
+            ln, rty0 = env[root][0], env[root][1]
+            cur_ = self.get_field(ln, rty0, field)
             if e.name == "clear" and not e.args:
-                return [("let", ln, f"{{ {ln} with {field} := [] }}")]
+                return [("let", ln, self.upd_field(ln, rty0, field, "[]"))]
             if e.name == "push" and len(e.args) == 1:
                 its, t, tx = self.tr(e.args[0], env)
                 if not self.compat(fty[5:-1], tx): raise Unsupported(f"`push` of {tx} onto a vector of {fty[5:-1]} (line {e.line})")
-                return its + [("let", ln, f"{{ {ln} with {field} := {ln}.{field} ++ [{unpar(t)}] }}")]
+                return its + [("let", ln, self.upd_field(ln, rty0, field, f"{cur_} ++ [{unpar(t)}]"))]
             if e.name == "append" and len(e.args) == 1:
                 a = e.args[0]
                 while a.kind == "paren": a = a.e
                 if a.kind == "un" and a.op == "&mut": a = a.e
                 src = self.vec_field_place(a, env)
+                if src is None and self.vec_place(a, env) is not None:
+                    rest = self.cur_rest
+                    if rest is None or a.segs[0] in (self.idents(list(rest[0])) | self.idents(rest[1])):
+                        raise Unsupported(f"`{a.segs[0]}` is used after `append` emptied it (line {e.line})")
+                    its, t, tx = self.tr(a, env)
+                    if not self.compat(fty, resolve_ty(tx)): raise Unsupported(f"`append` of {tx} onto {fty} (line {e.line})")
+                    return its + [("let", ln, self.upd_field(ln, rty0, field, f"{cur_} ++ {t}"))]
                 if src is None: raise Unsupported(f"`append` of this form (line {e.line})")
                 rest = self.cur_rest
                 if rest is None or any(self.vec_field_place(n_, env) == src for n_ in self.field_nodes(list(rest[0]) + [rest[1]])):
                     raise Unsupported(f"`{src[0]}.{src[1]}` is used after `append` emptied it (line {e.line})")
                 if not self.compat(fty, src[2]): raise Unsupported(f"`append` of {src[2]} onto {fty} (line {e.line})")
                 sl = env[src[0]][0]
-                return [("let", ln, f"{{ {ln} with {field} := {ln}.{field} ++ {sl}.{src[1]} }}")]
+                return [("let", ln, self.upd_field(ln, rty0, field, f"{cur_} ++ {self.get_field(sl, env[src[0]][1], src[1])}"))]
             return None
         if e.name in ("append", "extend") and len(e.args) == 1 and self.cfg.get("sp13"):
             root = self.vec_place(e.recv, env)
@@ -2711,6 +2809,14 @@ class Translator:
                 if rest is None or a.segs[0] in (self.idents(list(rest[0])) | self.idents(rest[1])):
                     raise Unsupported(f"`{a.segs[0]}` is used after `append` emptied it (line {e.line})")
             return its + [("let", ln, f"{ln} ++ {t}")]
+        if e.name == "extend_cols" and len(e.args) == 1 and self.cfg.get("cscx"):
+            r0 = e.recv
+            while r0.kind == "paren": r0 = r0.e
+            if r0.kind == "path" and len(r0.segs) == 1 and r0.segs[0] in env and env[r0.segs[0]][2] and env[r0.segs[0]][1] == "SM":
+                ln = env[r0.segs[0]][0]
+                its, t, ty = self.tr(e.args[0], env)
+                if ty != "SM": raise Unsupported(f"`extend_cols` with an argument of type {ty} (line {e.line})")
+                return its + [("bind", ln, f"SM.extend_cols {ln} {t}")]
         if e.name in ("push", "reverse"):
             root = self.vec_place(e.recv, env)
             if root is None: return None
@@ -2723,6 +2829,23 @@ class Translator:
                     raise Unsupported(f"`push` of {tx} onto a vector of {resolve_ty(ty)[5:-1]} (line {e.line})")
                 return its + [("let", ln, f"{ln} ++ [{unpar(t)}]")]
             return None
+        if e.name == "for_each" and len(e.args) == 1 and e.args[0].kind == "closure" and len(e.args[0].params) == 1 and \
+                e.recv.kind == "mcall" and e.recv.name == "iter_mut" and not e.recv.args and self.cfg.get("sp13"):
+            # `v.iter_mut().for_each(|x| *x op= e)`: an in-place map
+            c = e.args[0]
+            root = self.vec_place(e.recv.recv, env)
+            b = c.body
+            while b.kind == "paren": b = b.e
+            p_ = c.params[0]
+            if root is None or isinstance(p_, tuple) or b.kind != "assign" or b.op == "=" or \
+                    not (b.l.kind == "un" and b.l.op == "*" and b.l.e.kind == "path" and b.l.e.segs == [p_]):
+                raise Unsupported(f"`iter_mut().for_each` of this form (line {e.line})")
+            ln, ty, _ = env[root]
+            newc = N("closure", params=[p_], body=N("bin", op=b.op[:-1], l=N("path", segs=[p_], line=e.line), r=b.r, line=e.line),
+                     line=e.line, mutps=set())
+            cname, cargs, cret, mon = self.closure_def(newc, [resolve_ty(ty)[5:-1]], env)
+            if mon or not self.compat(resolve_ty(ty)[5:-1], cret): raise Unsupported(f"`iter_mut().for_each` closure (line {e.line})")
+            return [("let", ln, "List.map (" + " ".join([cname] + cargs) + f") {ln}")]
         if e.name == "for_each" and len(e.args) == 1 and e.args[0].kind == "closure" and len(e.args[0].params) == 1:
             c = e.args[0]
             p_ = c.params[0]
@@ -3014,6 +3137,17 @@ class Translator:
         ln, rty, _ = env[root]
         if field is not None and rty == "PM" and field in self.cfg.get("newtype_structs", {}).values():
             field = None                      # `self.inner = x`: the wrapper is its field
+        if field is not None and field.isdigit() and resolve_ty(rty).startswith("(") and self.cfg.get("sp13"):
+            comps = split_top(resolve_ty(rty)[1:-1])
+            if int(field) >= len(comps): raise Unsupported(f"tuple field .{field} (line {e.line})")
+            fty = comps[int(field)]
+            cur = self.get_field(ln, rty, field)
+            its, term, ty = self.tr(e.r, env)
+            if e.op != "=":
+                its2, term, ty = self.binop(e.op[:-1], cur, fty, term, ty, e.line)
+                its = its + its2
+            if not self.compat(fty, ty): raise Unsupported(f"assignment of {ty} to a place of type {fty} (line {e.line})")
+            return its + [("let", ln, self.upd_field(ln, rty, field, term))]
         if field is not None:
             fty = self.field_ty(rty, field, e.line)
             cur = f"{ln}.{field}"
@@ -3068,6 +3202,13 @@ class Translator:
             if ta not in INT64: raise Unsupported(f"vector index (line {e.line})")
             its += i2
             idx, getf, setf = a, "Buf.get", "Buf.set"
+        elif resolve_ty(pty).startswith("List<") and self.cfg.get("sp13") and e.op == "=":
+            i2, a, ta = self.tr(ix, env)
+            if ta not in INT64: raise Unsupported(f"vector index (line {e.line})")
+            if not self.compat(resolve_ty(pty)[5:-1], tv): raise Unsupported(f"assignment of {tv} to an entry (line {e.line})")
+            r = self.fresh()
+            its = its + i2 + [("bind", r, f"Sp.list_set {cur} {a} {v}")]
+            return its + [("let", ln, r if field is None else f"{{ {ln} with {field} := {r} }}")]
         else:
             raise Unsupported(f"assignment to an indexed place of type {pty} (line {e.line})")
         sc = "S" if pty == "VS" else "Z"
@@ -3367,6 +3508,11 @@ class Translator:
                     ty_ = env[root][1]
                     if n.kind == "iflet" or ty_ in ("LM",) or re.fullmatch(r"M<\w+,\w+>", ty_ or "") or ty_ in self.mod.structs:
                         found.add(root)
+            if n.kind == "mcall" and n.name == "extend_cols" and self.cfg.get("cscx"):
+                r = n.recv
+                while r.kind == "paren": r = r.e
+                if r.kind == "path" and len(r.segs) == 1 and r.segs[0] in env and r.segs[0] not in local and env[r.segs[0]][2]:
+                    found.add(r.segs[0])
             if n.kind == "mcall" and n.name in ("push", "reverse", "append", "extend", "pop") and \
                     (self.cfg.get("csc") or self.cfg.get("sp13")):
                 r = n.recv
@@ -3653,6 +3799,8 @@ class Translator:
                 return its, f"{t}.{1 if e.name == 'start' else 2}", "usize"
             if ty == "PM" and e.name in self.cfg.get("newtype_structs", {}).values():
                 return its, t, "PM"                               # the wrapped `CscMatrix`: the same Lean value
+            for w_ in self.cfg.get("wrapper_structs", {}).values():
+                if ty == w_[1] and e.name == w_[0]: return its, f"({w_[3]} {t})", w_[2]
             return its, f"{t}.{self.field_name(e.name)}", self.field_ty(ty, e.name, line)
         if k == "un":
             its, t, ty = self.tr(e.e, env)
@@ -3666,6 +3814,8 @@ class Translator:
                 return its, f"(e.neg {t})", ty
             if e.op == "-" and ty == "S":
                 return its, f"(C12.Scal.neg {t})", ty
+            if e.op == "-" and ty == "SM" and self.cfg.get("cscx"):
+                return its, f"(SM.neg {t})", ty
             if e.op == "-" and ty == "W":
                 r = self.fresh()
                 return its + [("bind", r, f"I32.neg {t}")], r, "W"
@@ -3850,6 +4000,9 @@ class Translator:
                 i3, t, ty = self.call_user_terms(c[0], [a, b], line)
                 return i1 + i2 + i3, t, ty
             raise Unsupported(f"`{op}` on {ta}, {tb} (line {line})")
+        if self.cfg.get("cscx"):
+            if op == "*" and ta == "SM" and tb == "SV": return i1 + i2, f"(SM.mul_vec {a} {b})", "SV"
+            if op == "-" and ta == "SV" and tb == "SV": return i1 + i2, f"(SVec.sub {a} {b})", "SV"
         if op == "*" and ta == "PM" and tb in ("PM", "PV"):
             r = self.fresh()
             return i1 + i2 + [("bind", r, f"{'C13.SpMat.mul' if tb == 'PM' else 'C13.SpMat.mulVec'} {a} {b}")], r, tb
@@ -4049,6 +4202,12 @@ class Translator:
 
     def tr_struct(self, e, env):
         name = self.cur.ty if e.path == ["Self"] else "::".join(e.path)
+        if name in self.cfg.get("wrapper_structs", {}):
+            w_ = self.cfg["wrapper_structs"][name]
+            if len(e.fields) != 1 or e.fields[0][0] != w_[0]: raise Unsupported(f"struct literal of `{name}` (line {e.line})")
+            its, t, ty = self.tr(e.fields[0][1], env)
+            if ty != w_[2]: raise Unsupported(f"field {w_[0]}: {ty} given, {w_[2]} expected (line {e.line})")
+            return its, f"({w_[4]} {t})", w_[1]
         if name not in self.mod.structs: raise Unsupported(f"struct literal of `{name}` (line {e.line})")
         decl = self.mod.structs[name]
         given = dict()
@@ -4061,7 +4220,7 @@ class Translator:
             its += i2; given[fn_] = t
         if set(given) != {f for f, _ in decl}: raise Unsupported(f"struct literal does not give all fields (line {e.line})")
         body = ", ".join(f"{self.field_name(f)} := {unpar(given[f])}" for f, _ in decl)
-        return its, f"({{ {body} }} : {name}S{' R' if self.cfg.get('struct_params') else ''})", name
+        return its, f"({{ {body} }} : {name}S{(' ' + self.cfg.get('struct_param_name', 'R')) if self.cfg.get('struct_params') else ''})", name
 
     def tr_macro(self, e, env):
         nm, line = e.name, e.line
@@ -4084,6 +4243,11 @@ class Translator:
             return [("bind", r, "Res.panic")], r, "!"
         if nm == "vec" and not e.args and self.cfg.get("hom"):
             return [], "[]", "List<_>"
+        if nm == "vec" and self.cfg.get("sp13") and getattr(e, "repeat", False):
+            i1, x, tx = self.tr(e.args[0], env)
+            i2, n_, tn = self.tr(e.args[1], env)
+            if tn not in INT64 or tx in ("()", "!"): raise Unsupported(f"`vec![x; n]` with x : {tx}, n : {tn} (line {line})")
+            return i1 + i2, f"(List.replicate {n_} {x})", f"List<{tx}>"
         if nm == "vec" and self.cfg.get("sp13") and not getattr(e, "repeat", False):
             if not e.args:
                 self.nty += 1
@@ -4141,6 +4305,17 @@ class Translator:
         if self.cfg.get("sp13"):
             r_ = self.tr_call_sp(e, env)
             if r_ is not None: return r_
+        if self.cfg.get("cscx") and len(segs) == 1 and segs[0] in ("solve_triangular", "solve_triangular_left") and \
+                segs[0] not in env and len(e.args) == 3:
+            its_, tms = [], []
+            for a_, want in zip(e.args, ("bool", "SM", "SM")):
+                i2, t_, ty_ = self.tr(a_, env)
+                if ty_ != want: raise Unsupported(f"`{segs[0]}` on an argument of type {ty_} (line {line})")
+                its_ += i2; tms.append(t_)
+            r = self.fresh()
+            return its_ + [("bind", r, " ".join([f"SM.{segs[0]}"] + tms))], r, "SM"
+        if self.cfg.get("cscx") and len(segs) == 1 and segs[0] in env and env[segs[0]][1] == "CLOSURE":
+            return self.call_local_closure(e, env)
         if self.cfg.get("csc") and len(segs) == 2:
             if segs[0] == "Either" and segs[1] in ("Left", "Right") and len(e.args) == 1:
                 return self.tr(e.args[0], env)            # both alternatives are iterators over the same items: a list
@@ -4150,7 +4325,15 @@ class Translator:
             its_ = [i for a_ in ats for i in a_[0]]
             tms, tys = [a_[1] for a_ in ats], [resolve_ty(a_[2]) for a_ in ats]
             if segs == ["SpMat", "id"] and len(tys) == 1 and tys[0] in INT64:
-                return its_, f"(SM.id {tms[0]})", "SM"
+                return its_, (f"(SM.id {tms[0]} : C12.SpMat α)" if self.cfg.get("cscx") else f"(SM.id {tms[0]})"), "SM"
+            if self.cfg.get("cscx"):
+                if segs == ["SpMat", "from_entries"] and len(tys) == 2 and tys[0] == "(usize,usize)" and \
+                        self.compat("List<(usize,usize,S)>", tys[1]):
+                    r = self.fresh()
+                    return its_ + [("bind", r, f"SM.from_entries {tms[0]} {tms[1]}")], r, "SM"
+                if segs == ["Trans", "new"] and tys == ["SM", "SM"]:
+                    r = self.fresh()
+                    return its_ + [("bind", r, f"SM.Tr.new {tms[0]} {tms[1]}")], r, "TR"
             if segs == ["SpMat", "from_col_vecs"] and len(tys) == 2 and tys[0] in INT64 and tys[1] == "List<SV>":
                 r = self.fresh()
                 return its_ + [("bind", r, f"SM.from_col_vecs {tms[0]} {tms[1]}")], r, "SM"
@@ -4238,6 +4421,22 @@ class Translator:
                 return self.call_user(c, None, e.args, env, line)
         raise Unsupported(f"call of `{'::'.join(segs)}` (line {line})")
 
+    def call_local_closure(self, e, env):
+        """call of a closure bound by `let name = |params| body;`: the body with the arguments substituted"""
+        segs, line = e.path, e.line
+        c, cenv = self.local_closures[(self.cur.key, segs[0])]
+        if len(c.params) != len(e.args): raise Unsupported(f"call of the closure `{segs[0]}` with {len(e.args)} arguments (line {line})")
+        its, env2 = [], dict(cenv)
+        for p_, a in zip(c.params, e.args):
+            i2, t, ty = self.tr(a, env)
+            if ty == "int": ty = "usize"
+            if not re.fullmatch(r"[\w.]+", t):
+                r0 = self.fresh(); i2 = i2 + [("let", r0, t)]; t = r0
+            its += i2
+            if p_ != "_": env2[p_] = (t, ty, False)
+        i3, t, ty = self.tr(c.body, env2)
+        return its + i3, t, ty
+
     def tr_call_sp(self, e, env):
         """calls of target option `sp13`: function-typed variables, the `CooMatrix` / `CscMatrix` / `PermView` statics"""
         segs, line = e.path, e.line
@@ -4254,6 +4453,8 @@ class Translator:
             r = self.fresh()
             return its + [("bind", r, " ".join([ln] + ts))], r, self.norm_ty(mf.group(2), self.cur)
         if len(segs) == 1 and segs[0] in env and env[segs[0]][1] == "CLOSURE":
+            return self.call_local_closure(e, env)
+        if False:
             c, cenv = self.local_closures[(self.cur.key, segs[0])]
             if len(c.params) != len(e.args): raise Unsupported(f"call of the closure `{segs[0]}` with {len(e.args)} arguments (line {line})")
             its, env2 = [], dict(cenv)
@@ -4282,6 +4483,12 @@ class Translator:
                     its += i2 + i3; ps.append(f"({unpar(ta)}, {unpar(tb)})")
                 return its, "[" + ", ".join(ps) + "]", f"List<{ty0}>"
             raise Unsupported(f"`zip` of this form (line {line})")
+        if segs == ["Iterator", "chain"] and len(e.args) == 2:
+            i1, a, ta = self.tr(e.args[0], env)
+            i2, b, tb = self.tr(e.args[1], env)
+            ta, tb = resolve_ty(ta), resolve_ty(tb)
+            if not (ta.startswith("List<") and self.compat(ta, tb)): raise Unsupported(f"`Iterator::chain` of {ta} and {tb} (line {line})")
+            return i1 + i2, f"({a} ++ {b})", ta
         if segs in (["std", "mem", "replace"], ["mem", "replace"]) and len(e.args) == 2:
             x = e.args[0]
             while x.kind == "paren": x = x.e
@@ -4310,7 +4517,7 @@ class Translator:
                  ("SpMat", "from_entries"): ("C13.fromEntries", ["usize", "usize", "List<(usize,usize,K13)>"], "PM", True),
                  ("SpMat", "from_row_perm"): ("C13.fromRowPerm", ["PP"], "PM", True),
                  ("SpMat", "from_col_perm"): ("C13.fromColPerm", ["PP"], "PM", True)}
-        if key == ("SpMat", "from_entries") and len(e.args) == 2 and "SpMat" not in self.newtypes:
+        if key == ("SpMat", "from_entries") and len(e.args) == 2 and self.find_fn("SpMat", "from_entries") is None:
             sh = e.args[0]
             while sh.kind == "paren": sh = sh.e
             if sh.kind == "tuple" and len(sh.es) == 2:
@@ -4343,8 +4550,20 @@ class Translator:
     def tr_mcall_sp(self, e, env, i1, recv, rty):
         """method calls of target option `sp13` (None: not handled here)"""
         line, name, na = e.line, e.name, len(e.args)
+        for wname, w_ in self.cfg.get("wrapper_structs", {}).items():
+            if rty == w_[1]:
+                c = self.find_fn(wname, name, None)
+                if c is not None and c.selfk in ("ref", "val"):
+                    i2, t, ty = self.call_user(c, recv, e.args, env, line)
+                    return i1 + i2, t, ty
+        if rty == "PM" and self.cfg.get("wrapper_structs"):
+            c = self.find_fn("SpMat", name, None)
+            if c is not None and c.selfk in ("ref", "val"):
+                i2, t, ty = self.call_user(c, recv, e.args, env, line)
+                return i1 + i2, t, ty
+            if name == "triplet_iter" and na == 0: return i1, f"(Sp.iter {recv})", "List<(usize,usize,K13)>"
         if rty == "PM":
-            owner = next(iter(self.newtypes), None)
+            owner = next(iter(set(self.cfg.get("newtype_structs", {}))), None)
             if owner is not None and name not in ("nrows", "ncols", "shape", "iter", "nnz", "disassemble", "inner",
                                                   "into_inner", "clone", "into"):
                 c = self.find_fn(owner, name, None)
@@ -4424,6 +4643,9 @@ class Translator:
             if self.simple(body): return i1, f"(if {recv} then some {body.final[1]} else none)", f"Option<{ty}>"
             r = self.fresh()
             th = Code(body.items, ("pure", f"(some {body.final[1]})")) if body.final[0] == "pure" and isinstance(body.final[1], str) else None
+            if th is None and body.final[0] == "m":
+                r2 = self.fresh()
+                th = Code(list(body.items) + [("bind", r2, body.final[1])], ("pure", f"(some {r2})"))
             if th is None: raise Unsupported(f"`.then` with a closure of this form (line {line})")
             return i1 + [("bind", r, IfTerm(recv, th, Code([], ("pure", "none"))))], r, f"Option<{ty}>"
         if rty.startswith("FN<"):
@@ -4433,6 +4655,18 @@ class Translator:
     def tr_mcall_csc(self, e, env, i1, recv, rty):
         """method calls on the CSC types of target option `csc` (None: not one of them)"""
         line, name, na = e.line, e.name, len(e.args)
+        if rty == "bool" and name == "then" and na == 1 and e.args[0].kind == "closure" and not e.args[0].params and \
+                self.cfg.get("cscx"):
+            body = self.tr_block(N("block", stmts=[], tail=e.args[0].body), env, ("value", None))
+            ty = self.last_ty
+            if self.simple(body): return i1, f"(if {recv} then some {body.final[1]} else none)", f"Option<{ty}>"
+            r = self.fresh()
+            th = Code(body.items, ("pure", f"(some {body.final[1]})")) if body.final[0] == "pure" and isinstance(body.final[1], str) else None
+            if th is None and body.final[0] == "m":
+                r2 = self.fresh()
+                th = Code(list(body.items) + [("bind", r2, body.final[1])], ("pure", f"(some {r2})"))
+            if th is None: raise Unsupported(f"`.then` with a closure of this form (line {line})")
+            return i1 + [("bind", r, IfTerm(recv, th, Code([], ("pure", "none"))))], r, f"Option<{ty}>"
         if rty == "S":
             if na == 0:
                 if name == "is_zero": return i1, f"(C12.Scal.isZero {recv})", "bool"
@@ -4448,6 +4682,19 @@ class Translator:
                 i2, a, ta = self.tr(e.args[0], env)
                 if ta not in INT64: raise Unsupported(f"`.col_vec` with an argument of type {ta} (line {line})")
                 return i1 + i2, f"(SM.col_vec {recv} {a})", "SV"
+            if self.cfg.get("cscx"):
+                if name == "divide4" and na == 1:
+                    i2, p_, tp = self.tr(e.args[0], env)
+                    if tp != "(usize,usize)": raise Unsupported(f"`.divide4` with an argument of type {tp} (line {line})")
+                    r = self.fresh()
+                    return i1 + i2 + [("bind", r, f"SM.divide4 {recv} {p_}")], r, "(SM,SM,SM,SM)"
+                if name == "stack" and na == 1:
+                    i2, b_, tb = self.tr(e.args[0], env)
+                    if tb != "SM": raise Unsupported(f"`.stack` with an argument of type {tb} (line {line})")
+                    r = self.fresh()
+                    return i1 + i2 + [("bind", r, f"SM.stack {recv} {b_}")], r, "SM"
+                if name == "clone" and na == 0: return i1, recv, rty
+                if name == "is_zero" and na == 0: return i1, f"(SM.is_zero {recv})", "bool"
             if name == "is_triang" and na == 1:
                 i2, a, ta = self.tr(e.args[0], env)
                 c = self.find_fn("TriangularType", "is_upper")
@@ -4461,8 +4708,16 @@ class Translator:
         if rty == "VS" and na == 0:
             if name in ("iter", "into_iter"): return i1, f"(Array.toList {recv})", "List<S>"
             if name == "len": return i1, f"(Array.size {recv})", "usize"
+        if rty.startswith("Option<") and name == "as_ref" and na == 0 and self.cfg.get("cscx"): return i1, recv, rty
         if rty.startswith("List<"):
             elt = rty[5:-1]
+            if name == "map" and na == 1 and e.args[0].kind == "closure" and self.cfg.get("cscx"):
+                cname, cargs, cret, mon = self.closure_def(e.args[0], [elt], env)
+                call = "(" + " ".join([cname] + cargs) + ")"
+                if mon:
+                    r = self.fresh()
+                    return i1 + [("bind", r, f"Iter.mapM {call} {recv}")], r, f"List<{cret}>"
+                return i1, f"(List.map {call} {recv})", f"List<{cret}>"
             if na == 0:
                 if name == "enumerate": return i1, f"(Csc.enumerate {recv})", f"List<(usize,{elt})>"
                 if name == "rev": return i1, f"(List.reverse {recv})", rty
@@ -4732,6 +4987,12 @@ def generate(src_text, src_label, target="bitseq"):
     for name in struct_order(sorted(mod.structs)):
         fs = mod.structs[name]
         eo = cfg.get("eops")
+        if name in cfg.get("wrapper_structs", {}):
+            w_ = cfg["wrapper_structs"][name]
+            mod.notes.append(f"struct {name}: rendered as {w_[1]} (field `{w_[0]}` through {w_[3]} / {w_[4]})")
+            tr.types.discard(name)
+            tr.newtypes.add(name)
+            continue
         if name in cfg.get("newtype_structs", {}):
             mod.notes.append(f"struct {name}: a wrapper of its field `{cfg['newtype_structs'][name]}` (same Lean type)")
             tr.types.discard(name)
